@@ -84,7 +84,15 @@ fn keygen_case<const N: usize>(ctx: &mut Ctx, idx: usize) {
         }
     }
     // all-zero windows at every offset / width aligned with a scalar draw
-    for offset in 0..=N + 3 {
+    // (long keys: the first and last offsets, the neighbourhood of 16 / 32 / 64 and a random sample)
+    let offsets: Vec<usize> = if N <= 20 { (0..=N + 3).collect() } else {
+        let mut v = vec![0, 1, 2, N - 1, N, N + 1, N + 2, N + 3];
+        for b in [16usize, 32, 64] { for d in [b - 1, b, b + 1] { if d <= N + 3 { v.push(d); } } }
+        for _ in 0..3 { v.push(ctx.prng.gen_range(0..=N + 3)); }
+        v.sort(); v.dedup();
+        v
+    };
+    for offset in offsets {
         for width in 1..=2 {
             let forced = zero_window(ctx, offset, width);
             // the unscripted comparison first (oracle only), then the model comparison
